@@ -327,12 +327,16 @@ def structural(ctx, gen, report=None):
                             except Exception:
                                 pass
                 seen = []
+                held = [(n, p) for n, p in t.named_parameters() if p.requires_grad]     # as an optimiser built before the first call holds them
                 for rep in range(2):
                     t.zero_grad(); x.grad = None
+                    for _, p in held:
+                        p.grad = None
                     torch.manual_seed(4242)          # same dropout masks on both calls
                     y, ld = t(x, c) if c is not None else t(x)
                     (y.sum() + ld.sum()).backward()
                     missing = [n for n, p in t.named_parameters() if p.requires_grad and p.grad is None]
+                    missing += ['%s (the parameter object held since before the first call)' % n for n, p in held if p.grad is None and (n + ' ') not in ' '.join(missing) + ' ']
                     nonfinite = [n for n, p in t.named_parameters() if p.grad is not None and not torch.isfinite(p.grad).all()]
                     if missing or nonfinite or x.grad is None or not torch.isfinite(x.grad).all():
                         ok = False; why = 'call %d: missing grads %s non-finite %s' % (rep + 1, missing[:4], nonfinite[:4]); break
